@@ -1895,7 +1895,7 @@ namespace gch
       GCH_NODISCARD
       static GCH_CPP17_CONSTEXPR
       size_ty
-      external_range_length (ForwardIt first, ForwardIt last) noexcept
+      external_range_length (ForwardIt first, ForwardIt last)
       {
 #ifdef GCH_LIB_IS_CONSTANT_EVALUATED
         if (std::is_constant_evaluated ())
